@@ -183,16 +183,19 @@ def _bind(helper, call, receiver_is_self, caller_names=frozenset()):
             mapping[p] = e
         else:
             tmp = p + suffix
+            INTRODUCED.add(tmp)
             prelude.append(ast.copy_location(ast.Assign(
                 targets=[ast.Name(id=tmp, ctx=ast.Store())], value=e), call))
             mapping[p] = tmp
     for local in helper.stored:
         if local not in mapping and local in caller_names:
             mapping[local] = local + suffix      # keeps the helper's local apart from the caller's
+            INTRODUCED.add(local + suffix)
     return prelude, mapping
 
 
 _EXPANDED = set()
+INTRODUCED = set()      # names that exist only because a helper was expanded
 _CALLER_NAMES = [frozenset()]
 
 
@@ -238,7 +241,25 @@ def _expand_stmt(st, helpers, scope_cls):
         return None
     prelude, mapping = bound
     _EXPANDED.add(helper.name)
+    # `t = helper(...)` where the helper builds a local and returns it at its
+    # end: the local *is* t (no `t = local_of_helper` copy at the end)
+    rets = [n for s in helper.body for n in ast.walk(s) if isinstance(n, ast.Return)]
+    if mode == 'assign' and isinstance(target, ast.Name) and len(rets) == 1 \
+            and helper.body and helper.body[-1] is rets[0] and isinstance(rets[0].value, ast.Name) \
+            and rets[0].value.id in helper.stored and rets[0].value.id not in helper.params:
+        local = rets[0].value.id
+        helper_names = {n.id for s in helper.body for n in ast.walk(s) if isinstance(n, ast.Name)}
+        arg_names = {n.id for v in mapping.values() if isinstance(v, ast.AST)
+                     for n in ast.walk(v) if isinstance(n, ast.Name)} | \
+            {v for v in mapping.values() if isinstance(v, str)}
+        if target.id not in arg_names and (target.id == local or target.id not in helper_names):
+            mapping = dict(mapping)
+            mapping[local] = target.id
     body = [_Subst(mapping).visit(copy.deepcopy(s)) for s in helper.body]
+    if body and isinstance(body[-1], ast.Return) and isinstance(body[-1].value, ast.Name) \
+            and mode == 'assign' and isinstance(target, ast.Name) and body[-1].value.id == target.id:
+        if len(rets) == 1:
+            return prelude + (body[:-1] or [ast.copy_location(ast.Pass(), st)])
     if mode == 'return':
         return prelude + (body or [ast.copy_location(ast.Return(value=None), st)]) + (
             [] if body and _always_returns(body) else [ast.copy_location(ast.Return(value=None), st)])
@@ -303,9 +324,30 @@ def _expand_exprs(node, helpers, scope_cls):
     count = 0
 
     class T(ast.NodeTransformer):
+        def visit_Name(self, name):
+            # a single-expression module-level helper that is handed over rather
+            # than called (`reduce(_add, xs)`) is the lambda it abbreviates
+            nonlocal count
+            h = helpers.get((None, name.id)) if isinstance(name.ctx, ast.Load) else None
+            if h is None or not h.ok or h.expr is None or h.defaults or h.stored:
+                return name
+            count += 1
+            _EXPANDED.add(h.name)
+            lam = ast.Lambda(args=ast.arguments(
+                posonlyargs=[], args=[ast.arg(arg=p_) for p_ in h.params], vararg=None,
+                kwonlyargs=[], kw_defaults=[], kwarg=None, defaults=[]), body=copy.deepcopy(h.expr))
+            for sub in ast.walk(lam):
+                ast.copy_location(sub, name)
+            return lam
+
         def visit_Call(self, call):
             nonlocal count
-            self.generic_visit(call)
+            if isinstance(call.func, ast.Name):
+                call.args = [self.visit(a) for a in call.args]
+                for k in call.keywords:
+                    k.value = self.visit(k.value)
+            else:
+                self.generic_visit(call)
             h = _resolve(call, helpers, scope_cls)
             if h is None or not h.ok or h.expr is None:
                 return call
